@@ -514,11 +514,21 @@ def bounded_checks(tier, seed):
 
 @contract("C01", "visitor.visit_classdef.span_events_scope", [VS + "visit_classdef"], floor=6, replay="replay_visitor", split=16)
 def c_visit_classdef(P):
+    visit_classdef_driver(P, "C01")
+
+
+def visit_classdef_driver(P, clause):
     """A class definition: span from the first decorator to the end of the definition, runtime flag, placed in the current scope under its name, announced
     after it was placed, its body visited with the class as current scope, members-complete events after the body, scope restored."""
     install_expr_str(P)
     v, cur, ev, info = VF.mk_visitor(P)
     G0 = info["G0"]
+    if clause == "C04":
+        # the scoping clauses only (the rest of the handler's contract belongs to C01)
+        real_prove = P.prove
+        keep = ("decorators_resolve_in_the_enclosing_scope", "bases_resolve_in_the_enclosing_scope", "one_base_expression_per_base_in_the_source", "scope_restored",
+                "body_is_visited_with_the_class_as_scope", "never_raises")
+        P.prove = lambda nm, *a, **k: real_prove(nm, *a, **k) if nm in keep else None
     name = P.fresh_str("class_name")
     DLN = z3.Function("DECORATOR_LINENO", IntS, IntS)
     decorator_list = sym_seq(P, "decorator_list", lambda i: SObj("ast.expr", {"lineno": SInt(DLN(zint(i))), "end_lineno": SInt(DLN(zint(i)))},
@@ -562,7 +572,24 @@ def c_visit_classdef(P):
         if e[0] == "ext" and e[1] in ("on_instance", "on_class_instance", "on_members", "on_class_members"):
             P.prove("events_carry_the_placed_class", (e[2].get("obj") or e[2].get("cls")) is cls)
     P.prove("decorators_and_bases_are_never_parsed_as_string_annotations", all(k.get("parse_strings") is False for _, k in calls), calls=len(calls))
+    scope_clauses(P, cur, calls, base_calls, cls, bases)
     P.cover("visit_classdef")
+
+
+def scope_clauses(P, cur, calls, base_calls, cls, bases):
+    # names in decorators and base classes are bound where the class statement stands (Python evaluates them before the class body exists):
+    # their scope is the scope current on entry, never the class being defined
+    bf = cls.fields.get("bases")
+    if bf is not None and not isinstance(bf, (list, tuple)):
+        # the stored list is built element by element on demand: look at one arbitrary base so that its construction is observed
+        k_ = P.fresh_int("some_base_index")
+        if P.branch(z3.And(k_.z >= 0, k_.z < zint(P.seq_len(bf)))):
+            P.seq_at(bf, k_)
+    P.prove("decorators_resolve_in_the_enclosing_scope", all(k.get("parent") is cur for _, k in calls), calls=len(calls))
+    P.prove("bases_resolve_in_the_enclosing_scope", all(k.get("parent") is cur for k in base_calls), calls=len(base_calls))
+    if isinstance(cls.fields.get("bases"), (list, SSeq)) or cls.fields.get("bases") is not None:
+        nb = P.seq_len(cls.fields["bases"])
+        P.prove("one_base_expression_per_base_in_the_source", zint(nb) == zint(bases.len))
 
 
 BUILTIN_DECORATORS = {"property": "property", "staticmethod": "staticmethod", "classmethod": "classmethod"}
